@@ -1654,14 +1654,32 @@ def realise(ctx, shape):
 @model("std::iter::Iterator::collect")
 def m_collect(ctx, args):
     a = as_iter(ctx, args[0], 0)
+    dst = ctx.dest_ty()
     if a[0] != "iter":
+        if dst is not None and "ArrayVec" in ty_str(dst):
+            _collect_full(ctx, a, None)
         return ("call", ctx.oq, (a,))
     vec = realise(ctx, a[1])
-    dst = ctx.dest_ty()
     if dst is not None and dst[0] == "adt" and dst[1].endswith("ArrayVec"):
         cap = dst[2][1][1] if len(dst[2]) > 1 and dst[2][1][0] == "const" else None
+        _collect_full(ctx, vec, cap)
         return ("arrayvec", vec, cap)
+    if dst is not None and "ArrayVec" in ty_str(dst):
+        # collect::<Result<ArrayVec<..>, E>>() / Option<ArrayVec<..>>: the inner FromIterator is ArrayVec's, which is
+        # documented to panic on the (CAP+1)-th item
+        _collect_full(ctx, vec, None)
     return ("collected", vec, ty_str(dst) if dst else "?")
+
+
+def _collect_full(ctx, vec, cap):
+    """`ArrayVec::from_iter` / `extend` panic when the source yields more than CAP items: an obligation unless the
+    source length is statically the capacity (the `[T; N]::iter().map(f).collect::<ArrayVec<_, N>>()` idiom)."""
+    n = vec_len(ctx.eng, vec)
+    if n is not None and cap is not None and (n == cap or (isinstance(n, int) and isinstance(cap, int) and n <= cap)):
+        return
+    ctx.eng.obligations.append({
+        "kind": "CollectFull", "pc": ctx.st.pc, "cond": None, "expected": None, "ops": [vec, cap], "what": ctx.oq,
+        "site": ctx.site, "ln": ctx.term["ln"], "callpath": ctx.fr.callpath, "exp": ctx.term["exp"]})
 
 
 @model("std::iter::Iterator::sum", "std::iter::Sum::sum")
